@@ -77,6 +77,8 @@ var i32s = []int32{0, 1, -1, 42, math.MaxInt32, math.MinInt32, 1000000, -99}
 var i64s = []int64{0, 1, -1, math.MaxInt64, math.MinInt64, math.MaxInt32 + 1, 1 << 53, -(1 << 53) - 1}
 
 type GenOpts struct {
+	// occasionally draw arrays with 11–13 items (index formatting, loops)
+	LongArrays bool
 	// probability (percent) that an optional/defaulted field is set
 	OptPct int
 	// allow schema-invalid values (enum out of range, unions with 0 or 2 members)
@@ -115,6 +117,9 @@ func (e *Env) GenValue(rng *rand.Rand, t Ty, depth int, o GenOpts) *V {
 		return e.GenPrim(rng, t.Prim)
 	case t.Arr != nil:
 		n := rng.Intn(4)
+		if o.LongArrays && rng.Intn(6) == 0 {
+			n = 11 + rng.Intn(3)
+		}
 		if depth <= 0 {
 			n = 0
 		}
